@@ -17,7 +17,7 @@ LEVEL_TEXT = ("Theorems in Coq over every schedule of NewTerm, Truncate, Replica
               "schedules on the real ShardsDirector/FollowerController/LeaderController and comparing every RPC result, head, ack, write "
               "result, GetStatus and the final WAL with the extracted model; the fence predicates are also evaluated directly on the "
               "implementation (WAL appends, acks, write completions after a NewTerm answer).")
-LEVEL_NOTE = ("Trusted: Coq kernel, extraction (ExtrOcamlBasic), the Go harness (gating WAL wrapper, stream mock) and its canonicalisation. "
+LEVEL_NOTE = ("Snapshot install is one critical section in the code (handleSnapshot holds the apply mutex and the controller lock from the first Recv to the end), so it is one model step with an outcome parameter (complete / stream fails before the first chunk / fails later / later chunk of another term); handlers parked at their WAL calls, at the snapshot stream Recv and the apply loop parked in the DB are exercised by the harness (RACE schedules, spec-only scenarios) and judged by the fence monitors. Trusted: Coq kernel, extraction (ExtrOcamlBasic), the Go harness (gating WAL wrapper, stream mock) and its canonicalisation. "
               "Modelled, not verified: the WAL as a list with a synced prefix (C09/C10), the DB as the holder of term and commit offset, "
               "gRPC stream life cycle (a stream's goroutines end at an explicit StreamBreak action), the Go scheduler inside one critical section. "
               "Not modelled: the follower's apply loop (C06/C07; schedules advertise commit offset -1), leader with followers (cursors, quorum: C08), "
@@ -25,6 +25,7 @@ LEVEL_NOTE = ("Trusted: Coq kernel, extraction (ExtrOcamlBasic), the Go harness 
               "the harness still forces the NewTerm-vs-in-flight-write interleaving and reports an append landing after the answer.")
 TRUSTED = ["modelled not verified: WAL = list + synced prefix (C09/C10), DB = term + commit offset, gRPC stream termination as an explicit action"]
 ASSUMES = ["terms/offsets stay below 2^63 (Z in the model)",
+           "PARTIAL: the theorems cover schedules whose snapshot installs complete or fail before their first chunk (wf_action); an install that fails later empties the DB directory and, after a restart, the stored term is gone (c04_newterm_after_failed_snapshot_refuted; open known finding newterm:older-term-accepted-after-failed-snapshot-and-restart)",
            "Replicate streams announce their term in the stream metadata (streams without a term, accepted for rollout compatibility, are outside the ack clause)",
            "snapshot chunks carry a term >= -1"]
 RULE = ("schedules: 7 built-in (the O-3/O-4/O-5/O-5b/leader/role-change witnesses) + seeded random walks of 25-55 actions biased to NewTerm at every point "
